@@ -186,6 +186,7 @@ def rules(ck, P):
     mvt.pbf_rules(ck, P)
     mvt.feature_write_rule(ck, P)
     mvt.vtlp_rules(ck, P)
+    mvt.eq_hash_rules(ck, P)
 
 
 def mutants(P):
